@@ -29,7 +29,8 @@ def units(tier):
         for b in A.KINDS:
             if a != b:
                 us.append(("switch", a, b))
-    us.append(("truncated_dates",))
+    for kind in A.KINDS:
+        us.append(("truncated_dates", kind))
     us.append(("strptime",))
     us.append(("times",))
     us.append(("text_times",))
@@ -273,11 +274,20 @@ def run_unit(unit, ctx):
                     kw = dict(base, week_of_year=w, day_of_week=7)
                     _ctor(ctx, {"kind": "ctor", "mode": kind, "kw": kw, "after_mode": ka if rnd else None},
                           {"part": "week", "switch": True}, kw, c.valid_week(y, w, 7))
+            max_week = max(c.weeks_in_year(y) for y in range(1990, 2030))
+            for kw, want in ([({"truncated": True, "day_of_month": d}, 1 <= d <= max(c.leap)) for d in (30, 31, 32)] +
+                             [({"truncated": True, "day_of_year": d}, 1 <= d <= c.len_leap) for d in (360, 361, 365, 366, 367)] +
+                             [({"truncated": True, "week_of_year": w, "day_of_week": 1}, 1 <= w <= max_week) for w in (52, 53, 54)]):
+                ctx.state_count += 1
+                _ctor(ctx, {"kind": "ctor", "mode": kind, "kw": kw, "after_mode": ka if rnd else None},
+                      {"part": "truncated", "switch": True}, kw, want)
     elif u == "truncated_dates":
         # a truncated date that carries a two-digit year is a date *in that year*: the same impossible days are refused
-        impl.set_mode(None)
-        c = M.cal("greg")
+        kind = unit[1]
+        impl.set_mode(A.MODE_OF[kind])
+        c = M.cal(kind)
         parser = _tp_parser(allow_truncated=True, default_to_unknown_time_zone=True)
+        tag = lambda k, **kw: dict({"kind": k, "mode": kind}, **kw)  # noqa: E731
         for yy in (0, 4, 15, 16, 19, 96, 99):
             base = {"year": yy, "truncated": True, "truncated_property": "year_of_century"}
             for mo in range(0, 14):
@@ -285,28 +295,64 @@ def run_unit(unit, ctx):
                     want = 1 <= mo <= 12 and c.valid_cal(yy, mo, d)
                     ctx.state_count += 1
                     kw = dict(base, month_of_year=mo, day_of_month=d)
-                    _ctor(ctx, {"kind": "ctor_truncated", "kw": kw}, {"part": "truncated_cal"}, kw, want)
+                    _ctor(ctx, tag("ctor_truncated", kw=kw), {"part": "truncated_cal"}, kw, want)
                     for text in ("%02d-%02d-%02d" % (yy, mo, d), "%02d%02d%02d" % (yy, mo, d)):
-                        _parse(ctx, parser, {"kind": "parse_truncated", "text": text}, {"part": "truncated_cal"}, text, want)
-            for doy in (0, 1, 59, 60, 365, 366, 367):
+                        _parse(ctx, parser, tag("parse_truncated", text=text), {"part": "truncated_cal"}, text, want)
+            for doy in (0, 1, 59, 60, 360, 361, 365, 366, 367):
                 kw = dict(base, day_of_year=doy)
-                _ctor(ctx, {"kind": "ctor_truncated", "kw": kw}, {"part": "truncated_ord"}, kw, c.valid_ord(yy, doy))
+                _ctor(ctx, tag("ctor_truncated", kw=kw), {"part": "truncated_ord"}, kw, c.valid_ord(yy, doy))
                 for text in ("%02d-%03d" % (yy, doy), "%02d%03d" % (yy, doy)):
-                    _parse(ctx, parser, {"kind": "parse_truncated", "text": text}, {"part": "truncated_ord"}, text,
+                    _parse(ctx, parser, tag("parse_truncated", text=text), {"part": "truncated_ord"}, text,
                            c.valid_ord(yy, doy))
-            for w in (0, 1, 52, 53, 54):
+            for w in (0, 1, 51, 52, 53, 54):
                 for wd in (0, 1, 7, 8):
                     kw = dict(base, week_of_year=w, day_of_week=wd)
-                    _ctor(ctx, {"kind": "ctor_truncated", "kw": kw}, {"part": "truncated_week"}, kw, c.valid_week(yy, w, wd))
+                    _ctor(ctx, tag("ctor_truncated", kw=kw), {"part": "truncated_week"}, kw, c.valid_week(yy, w, wd))
                     text = "%02d-W%02d-%d" % (yy, w, wd)
-                    _parse(ctx, parser, {"kind": "parse_truncated", "text": text}, {"part": "truncated_week"}, text,
+                    _parse(ctx, parser, tag("parse_truncated", text=text), {"part": "truncated_week"}, text,
                            c.valid_week(yy, w, wd))
-        # year-less truncated dates: judged as if in a leap year (the most permissive real year)
+        # year-less truncated dates name a day that recurs: admissible exactly when some year of the active calendar
+        # has such a day (M: the longest month / leap-year month table / longest year / most weeks of any year)
+        max_dom, max_doy = max(c.leap), c.len_leap
+        max_week = max(c.weeks_in_year(y) for y in range(1990, 2030))
         for mo in range(0, 14):
             for d in (0, 1, 28, 29, 30, 31, 32):
                 kw = {"truncated": True, "month_of_year": mo, "day_of_month": d}
                 want = 1 <= mo <= 12 and 1 <= d <= c.leap[mo - 1]
-                _ctor(ctx, {"kind": "ctor_truncated", "kw": kw}, {"part": "truncated_yearless"}, kw, want)
+                ctx.state_count += 1
+                _ctor(ctx, tag("ctor_truncated", kw=kw), {"part": "truncated_yearless"}, kw, want)
+                text = "--%02d-%02d" % (mo, d)
+                _parse(ctx, parser, tag("parse_truncated", text=text), {"part": "truncated_yearless"}, text, want)
+        for d in range(0, 34):
+            kw = {"truncated": True, "day_of_month": d}
+            ctx.state_count += 1
+            _ctor(ctx, tag("ctor_truncated", kw=kw), {"part": "truncated_day_only"}, kw, 1 <= d <= max_dom)
+            text = "---%02d" % d
+            _parse(ctx, parser, tag("parse_truncated", text=text), {"part": "truncated_day_only"}, text, 1 <= d <= max_dom)
+        for doy in (0, 1, 59, 60, 359, 360, 361, 364, 365, 366, 367, 400):
+            kw = {"truncated": True, "day_of_year": doy}
+            ctx.state_count += 1
+            _ctor(ctx, tag("ctor_truncated", kw=kw), {"part": "truncated_doy_only"}, kw, 1 <= doy <= max_doy)
+            text = "-%03d" % doy
+            _parse(ctx, parser, tag("parse_truncated", text=text), {"part": "truncated_doy_only"}, text, 1 <= doy <= max_doy)
+        for w in (0, 1, 2, 26, 50, 51, 52, 53, 54, 60):
+            for wd in (None, 0, 1, 7, 8):
+                kw = {"truncated": True, "week_of_year": w}
+                text = "-W%02d" % w
+                want = 1 <= w <= max_week
+                if wd is not None:
+                    kw["day_of_week"] = wd
+                    text += "-%d" % wd
+                    want = want and 1 <= wd <= 7
+                ctx.state_count += 1
+                _ctor(ctx, tag("ctor_truncated", kw=kw), {"part": "truncated_week_only"}, kw, want)
+                _parse(ctx, parser, tag("parse_truncated", text=text), {"part": "truncated_week_only"}, text, want)
+        for wd in range(0, 10):
+            kw = {"truncated": True, "day_of_week": wd}
+            ctx.state_count += 1
+            _ctor(ctx, tag("ctor_truncated", kw=kw), {"part": "truncated_weekday_only"}, kw, 1 <= wd <= 7)
+            text = "-W-%d" % wd
+            _parse(ctx, parser, tag("parse_truncated", text=text), {"part": "truncated_weekday_only"}, text, 1 <= wd <= 7)
     elif u == "strptime":
         # the strptime entry point (with and without its dump_format keyword) refuses the same impossible values
         impl.set_mode(None)
@@ -538,7 +584,7 @@ def replay_case(case, ctx):
     elif k == "zone":
         run_unit(("zones", case["h"], case["h"] + 1), ctx)
     elif k in ("ctor_truncated", "parse_truncated"):
-        run_unit(("truncated_dates",), ctx)
+        run_unit(("truncated_dates", case.get("mode", "greg")), ctx)
     elif k == "strptime":
         run_unit(("strptime",), ctx)
 
